@@ -482,8 +482,9 @@ def body(chk):
     counting(chk)
     finish_all(chk)
     start_scenarios(chk)
-    from checks import ingest
+    from checks import ingest, sched_worlds
     ingest.obligations(chk, 'C03')
+    sched_worlds.run(chk, 'C03')
 
 
 if __name__ == '__main__':
